@@ -110,3 +110,70 @@ func H_C17_matcher_errors() {
 	}
 	t.end()
 }
+
+// H_C17_real: the real Any / Type / Custom JSON matchers: a missing path, a
+// value of the wrong type (including null) and a callback error each fail the
+// call once, naming matcher and path, and write nothing; with
+// ErrOnMissingPath(false) a missing path is ignored and the rest proceeds.
+func H_C17_real() {
+	vxrt.CI(false)
+	vxrt.EnvFixed("NO_COLOR", "1")
+	dir := vxrt.Dir()
+	c := WithConfig(Dir(dir), Filename("f"))
+	// document: {"s":<string>,"v":<string|number|null|bool>}
+	v := []string{`"x"`, "3", "null", "true"}[vxrt.Choice("value-kind", 4)]
+	doc := `{"s":"a","v":` + v + `}`
+	path := []string{"v", "missing"}[vxrt.Choice("path", 2)]
+	tolerant := vxrt.Bool("err-on-missing-path-false")
+	var m match.JSONMatcher
+	name := ""
+	expectErr := false
+	switch vxrt.Choice("matcher", 3) {
+	case 0:
+		name = "Any"
+		m = match.Any(path).ErrOnMissingPath(!tolerant)
+		expectErr = path == "missing" && !tolerant
+	case 1:
+		name = "Type"
+		m = match.Type[string](path).ErrOnMissingPath(!tolerant)
+		expectErr = path == "missing" && !tolerant || path == "v" && v != `"x"`
+	default:
+		name = "Custom"
+		fail := vxrt.Bool("callback-fails")
+		m = match.Custom(path, func(val any) (any, error) {
+			if fail {
+				return nil, errEnv
+			}
+			return "c", nil
+		}).ErrOnMissingPath(!tolerant)
+		expectErr = path == "missing" && !tolerant || path == "v" && fail
+	}
+	standalone := vxrt.Bool("standalone")
+	empty := dumpDir(dir)
+	t := newT("TestR")
+	if standalone {
+		c.MatchStandaloneJSON(t, doc, m, match.Any("s"))
+	} else {
+		c.MatchJSON(t, doc, m, match.Any("s"))
+	}
+	t.end()
+	if expectErr {
+		vxrt.Reach("error")
+		vxrt.Assert(len(t.errors) == 1 && len(t.logs) == 0, "C17:matcher-failure-fails-once")
+		vxrt.Assert(vxrt.Eq(dumpDir(dir), empty), "C17:matcher-failure-writes-nothing")
+		msg, _ := t.errors[0].(string)
+		vxrt.Assert(strings.Contains(msg, "match."+name+"(\""+path+"\")"), "C17:failing-matcher-and-path-named")
+		return
+	}
+	vxrt.Reach("ok")
+	vxrt.Assert(len(t.errors) == 0 && len(t.logs) == 1, "C17:no-failure-comparison-proceeds")
+	// the remaining matcher (Any on s) was applied, and the tolerated missing path left the value alone
+	stored := readFile(dir + "/f.snap")
+	if standalone {
+		stored = readFile(dir + "/f_1.snap.json")
+	}
+	vxrt.Assert(strings.Contains(stored, "<Any value>"), "C17:remaining-matchers-applied")
+	if path == "missing" {
+		vxrt.Assert(strings.Contains(stored, "\"v\": "+v), "C17:ignored-missing-path-leaves-document-alone")
+	}
+}
